@@ -126,11 +126,23 @@ func drawCfg(t *rapid.T) (*cfg, suite) {
 	if slow && !vlib.Thorough() {
 		maxN = 4 // pure-Go BLS12-381 scalar multiplications cost milliseconds; a Verify does rows x D of them
 	}
+	// low-weight tail of larger structures: the library imposes no limit on the number of holders or
+	// on the span-programme dimensions (Verify is rows x D scalar multiplications, no algorithm
+	// switch), the small range above is a budget choice only. Fast groups only.
+	if !slow && rapid.IntRange(1, 20).Draw(t, "moreHolders") == 20 {
+		maxN = rapid.SampledFrom([]int{7, 9, 12}).Draw(t, "maxNBig")
+	}
 	for {
 		// families weighted towards the structures with several rows per holder and zero coefficients
 		fam := rapid.SampledFrom([]string{policy.CNF, policy.CNF, policy.CNF, policy.Gate, policy.Gate, policy.Gate,
 			policy.Hier, policy.Hier, policy.Threshold, policy.Threshold, policy.Unanimity}).Draw(t, "familyWeighted")
 		c.pol = policy.Draw(t, policy.Opts{MaxN: maxN, Families: []string{fam}})
+		if c.pol.Family == policy.Hier && policy.TassaVerdict(c.pol, ordinalIDs(c.pol.N), s.order()) != 1 {
+			// only reachable in the larger-structure tail: a top threshold that Tassa's bound refuses
+			// even under ordinal IDs (the fallback below) - outside the documented domain
+			vlib.Class("Generator", "redraw:hier-outside-tassa-bound")
+			continue
+		}
 		if everyHolderHasRows(c.pol) {
 			break
 		}
@@ -149,6 +161,11 @@ func drawCfg(t *rapid.T) (*cfg, suite) {
 	c.k = rapid.SampledFrom([]int{1, 1, 2, 2, 3, 4}).Draw(t, "k")
 	if slow && c.k > 2 && !vlib.Thorough() {
 		c.k = 2
+	}
+	// "any number of combined dealings": occasionally 5..9 (the library folds the vectors pairwise,
+	// there is no limit; the usual 1..4 is a budget choice). Fast groups only.
+	if !slow && rapid.IntRange(1, 16).Draw(t, "manyDealings") == 16 {
+		c.k = rapid.SampledFrom([]int{5, 6, 7, 9}).Draw(t, "kBig")
 	}
 	if c.k >= 2 {
 		c.zeroLast = rapid.IntRange(0, 7).Draw(t, "zeroLast") == 0
